@@ -619,29 +619,19 @@ def c114(ctx):
         moves = [pt for name, pt in cursor_calls(f) if name in ("next", "prev", "seek")]
         ssk = P.call_points(f, r"PruningCursor::set_skip_key$")
         oks = P.ok_points(f)
-        ctx.floor(R, "%s: Ok exits" % m, len(oks), 2)
-        nrec = 0
+        ctx.floor(R, "%s: Ok exits" % m, len(oks), 1)
+        ctx.floor(R, "%s: entries recorded" % m, len(ssk), 1)
+        none_edges = _key_none_edges(f)
         for r_ in oks:
-            exhausted = False
-            for bb, lab in P.guards_of(f, r_):
-                d = f.blocks[bb].term["discr"]
-                if d.get("k") not in ("copy", "move"):
-                    continue
-                for (_p, kind, p_) in P.defs(f).of(d["pl"]["l"]):
-                    if kind == "assign" and p_["rv"]["r"] == "discr" and lab == "sw:0" and \
-                            any(s_["k"] == "call" and re.search(r"Cursor>::key$|::key$", s_["callee"]) for s_ in P.origins(f, {"k": "copy", "pl": {"l": p_["rv"]["pl"]["l"], "p": []}})):
-                        exhausted = True
-            if exhausted:
-                continue
-            nrec += 1
+            # from the last step of the wrapped cursor to a success return: through set_skip_key, or through an edge on which key()
+            # answered None (the wrapped cursor is exhausted: there is no entry to record)
             q = None
             for mv_ in moves:
-                q = q or P.reach(f, P.after(f, mv_), [r_], avoid=set(ssk) | (set(moves) - {mv_}))
+                q = q or P.reach(f, P.after(f, mv_), [r_], avoid=set(ssk) | (set(moves) - {mv_}) | set(P.error_points(f)), avoid_edges=none_edges)
             ctx.check(R, f, "returned-entry-recorded", bool(ssk) and q is None,
                       "%s records the entry it returns in skip_key" % m,
                       "%s returns positioned on an entry without recording its key in skip_key: a following next() then yields the older versions of "
                       "that same key (the key appears twice, the second time with a stale value)" % m, pt=r_, path=q)
-        ctx.floor(R, "%s: exits positioned on an entry" % m, nrec, 1)
     # absolute positioning forgets the previously returned key: seek_to_first, seek_to_last and seek are siblings and each
     # clears skip_key before it moves the wrapped cursor (a stale skip_key would screen out the entry a re-seek should land on)
     for m in ("seek_to_first", "seek_to_last", "seek"):
